@@ -146,7 +146,7 @@ func (e *Env) StopWallet() error {
 
 func (e *Env) stopWallet() error {
 	if e.worker {
-		if !e.H.VerifStopWorker(3 * time.Second) {
+		if !e.H.VerifStopWorker(150 * time.Millisecond) {
 			// the worker may be blocked in the suspend hand-shake; serve it until it can leave
 			for i := 0; i < 1000; i++ {
 				if !e.H.VerifServeSuspend(50 * time.Millisecond) {
